@@ -285,6 +285,12 @@ pub fn one(ctx: &mut Ctx, plan: &Plan, program: bool, kind: &str, to_model: bool
     for k in 0..orders {
         let order = if k == 0 { None } else { Some(gen::random_topo_order(&mut ctx.rng, plan)) };
         let res = catch(|| gen::arrows_of_plan(plan, order.as_deref(), program));
+        // a constructor that failed must fail again when called again (gen::build retries once)
+        if let Ok(mut v) = gen::RETRY_ACCEPTED.lock() {
+            for m in v.drain(..) {
+                ctx.fail("ill-typed-accepted-on-retry", &line, &m);
+            }
+        }
         match res {
             Err(p) => {
                 ctx.fail("panic-inference", &line, &p);
